@@ -358,11 +358,13 @@ pub open spec fn bytes_ascii(b: Seq<u8>) -> bool { forall|i: int| 0 <= i < b.len
 #[verifier::external_body]
 pub struct ExFromUtf8Error(std::string::FromUtf8Error);
 
-pub uninterp spec fn valid_utf8(b: Seq<u8>) -> bool;
-#[verifier::external_body]
+pub open spec fn valid_utf8(b: Seq<u8>) -> bool { vstd::utf8::valid_utf8(b) }
 pub proof fn axiom_valid_utf8_empty()
     ensures valid_utf8(Seq::<u8>::empty()),
 {
+    vstd::utf8::encode_utf8_valid_utf8(Seq::<char>::empty());
+    vstd::utf8::is_ascii_chars_encode_utf8(Seq::<char>::empty());
+    assert(vstd::utf8::encode_utf8(Seq::<char>::empty()) =~= Seq::<u8>::empty());
 }
 
 #[verifier::external_body]
@@ -371,6 +373,7 @@ pub fn rws_string_from_utf8(v: Vec<u8>) -> (r: Result<String, std::string::FromU
         r.is_ok() == valid_utf8(v@),
         bytes_ascii(v@) ==> r.is_ok(),
         r.is_ok() ==> vstd::utf8::encode_utf8(r.unwrap()@) == v@,
+        r.is_ok() ==> r.unwrap()@ == vstd::utf8::decode_utf8(v@),
         r.is_ok() ==> r.unwrap()@.len() <= v@.len(),
         r.is_ok() && bytes_ascii(v@) ==> r.unwrap()@.len() == v@.len()
             && forall|i: int| 0 <= i < v@.len() ==> #[trigger] r.unwrap()@[i] == (v@[i] as char),
